@@ -22,29 +22,29 @@ type Violation struct {
 
 // Result is what one case reports back to the driver (one JSON line).
 type Result struct {
-	Prop       string         `json:"prop"`
-	Case       int            `json:"case"`
-	Seed       int64          `json:"seed"`
-	Violations []Violation    `json:"violations,omitempty"`
+	Prop       string      `json:"prop"`
+	Case       int         `json:"case"`
+	Seed       int64       `json:"seed"`
+	Violations []Violation `json:"violations,omitempty"`
 	// Fingerprints are the distinct non-trivial classes this case exercised.
-	Fingerprints []string     `json:"fp,omitempty"`
-	Events     map[string]int `json:"events,omitempty"`
-	Sample     any            `json:"sample,omitempty"`
-	Inconclusive string       `json:"inconclusive,omitempty"`
-	Trace      []string       `json:"trace,omitempty"`
+	Fingerprints []string       `json:"fp,omitempty"`
+	Events       map[string]int `json:"events,omitempty"`
+	Sample       any            `json:"sample,omitempty"`
+	Inconclusive string         `json:"inconclusive,omitempty"`
+	Trace        []string       `json:"trace,omitempty"`
 }
 
 // Rec accumulates observations of one case. Safe for concurrent use.
 type Rec struct {
-	mu     sync.Mutex
-	Prop   string
-	viol   []Violation
-	fps    map[string]struct{}
-	events map[string]int
-	trace  []string
-	step   int
-	TraceOn bool
-	sample any
+	mu           sync.Mutex
+	Prop         string
+	viol         []Violation
+	fps          map[string]struct{}
+	events       map[string]int
+	trace        []string
+	step         int
+	TraceOn      bool
+	sample       any
 	inconclusive string
 }
 
